@@ -8,11 +8,13 @@ import (
 	"os"
 
 	"verif/harness/comp/ring"
+	"verif/harness/comp/sessin"
 	"verif/harness/internal/hx"
 )
 
 var components = map[string]func(o *hx.Out, g *hx.Rng, tier string){
 	"ring": ring.Run,
+	"sessin": sessin.Run,
 }
 
 func main() {
